@@ -23,6 +23,38 @@ func init() {
 	verifChecks["C20"] = checkCallback
 }
 
+// ---- attribution of the known allocator finding F1 (ABA in bufferList.pop): a pop whose CAS won a slot that somebody else
+// had popped after this popper's head load is a suspect; an execution with a suspect cannot blame callback mode for
+// corrupted or lost data (the free list itself may be corrupt), so its violations are reported as inconclusive.
+var (
+	cbkAbaSeq      uint64
+	cbkAbaSuspects int64
+	cbkAbaMu       sync.Mutex
+	cbkAbaLast     = map[uint64]uint64{}
+)
+
+func cbkInstallAbaDetector() {
+	verifPopHook.Store(&verifPopHooks{
+		begin: func(b *bufferList) uint64 { return atomic.AddUint64(&cbkAbaSeq, 1) },
+		won: func(b *bufferList, slot uint32, begin uint64) {
+			key := uint64(b.offsetInShm)<<32 | uint64(slot)
+			cbkAbaMu.Lock()
+			if cbkAbaLast[key] > begin {
+				atomic.AddInt64(&cbkAbaSuspects, 1)
+			}
+			cbkAbaLast[key] = atomic.AddUint64(&cbkAbaSeq, 1)
+			cbkAbaMu.Unlock()
+		},
+	})
+}
+
+func cbkResetAbaDetector() int64 {
+	cbkAbaMu.Lock()
+	cbkAbaLast = map[uint64]uint64{}
+	cbkAbaMu.Unlock()
+	return atomic.SwapInt64(&cbkAbaSuspects, 0)
+}
+
 type cbkProfile struct {
 	name  string
 	build func(k *ctl)
@@ -131,15 +163,16 @@ type cbkExec struct {
 	k    *ctl
 	strs []*cbkStream
 
-	mu       sync.Mutex
-	byID     map[uint32]*cbkStream
-	cond     *sync.Cond
-	viol     []string
-	violInfo []map[string]interface{}
-	inc      string
-	stuck    bool
-	zombies  []*Stream
-	allSent  int32
+	mu          sync.Mutex
+	byID        map[uint32]*cbkStream
+	cond        *sync.Cond
+	viol        []string
+	violInfo    []map[string]interface{}
+	inc         string
+	stuck       bool
+	abaSuspects int64
+	zombies     []*Stream
+	allSent     int32
 
 	arrivedDuringCb int64
 	arrivals        int64
@@ -584,7 +617,9 @@ func runCbkCase(c *checkCtx, cs cbkCase, race bool) *cbkExec {
 		}
 	})
 	x.k.install()
+	cbkResetAbaDetector()
 	defer func() {
+		x.abaSuspects = cbkResetAbaDetector()
 		for _, s := range x.strs {
 			if s.cl != nil {
 				s.cl.Close()
@@ -781,6 +816,7 @@ func checkCallback(c *checkCtx) {
 	c.assume("client and server session live in one process; OnData consumes at least one byte per invocation (the library re-invokes it while data is buffered)")
 	c.assume("'closed' in the statement's last clause is the local close (C10's final state); data flushed before a peer's close must still be offered (X11)")
 	c.assume("after a local Close returned at most one OnData entry is tolerated (the invocation whose loop check preceded the Close), none when Close was called inside OnData")
+	cbkInstallAbaDetector()
 	if isRacePass() {
 		for i := 0; i < 30; i++ {
 			cs := genCbkCase(c, i)
@@ -797,7 +833,7 @@ func checkCallback(c *checkCtx) {
 		c.sample("race pass")
 		return
 	}
-	n := c.pick(150, 7500)
+	n := c.pick(200, 10000)
 	var hits [vpPointCount]uint64
 	samples := 0
 	ownViolations := 0
@@ -814,6 +850,11 @@ func checkCallback(c *checkCtx) {
 			for _, pt := range append(append([]int{}, cbPoints...), fillPoints...) {
 				hits[pt] += x.k.hitCount(pt)
 			}
+		}
+		c.count("allocator ABA suspects (known finding F1) during callback executions", x.abaSuspects)
+		if x.abaSuspects > 0 && len(x.viol) > 0 {
+			c.inconclusiveCase(name, fmt.Sprintf("%d allocator ABA suspects (known finding F1) in this execution; not attributable to callback mode: %s", x.abaSuspects, x.viol[0]))
+			continue
 		}
 		if x.inc != "" && len(x.viol) == 0 {
 			c.inconclusiveCase(name, x.inc)
